@@ -313,6 +313,32 @@ func Invariants(w *world.World, violate func(sig, msg string), last string) {
 			v("vip-free-and-assigned", fmt.Sprintf("virtual IP %s is on the free list and assigned to %s", ip, owner))
 		}
 	}
+	// a terminating gateway instance advertises, per linked service, that service's address under "consul-virtual:<name>"
+	for _, s := range b.services {
+		if s.ServiceKind != structs.ServiceKindTerminatingGateway || s.PeerName != "" {
+			continue
+		}
+		for tag, ta := range s.ServiceTaggedAddresses {
+			if !strings.HasPrefix(tag, structs.TaggedAddressVirtualIP+":") {
+				continue
+			}
+			name := strings.TrimPrefix(tag, structs.TaggedAddressVirtualIP+":")
+			// does the gateway (still) link the service? Upstream never takes the tag off an instance when the link goes
+			// away (known finding); while the link exists the address has to be the service's current one.
+			link := "link-removed"
+			for _, r := range st.VerifTable("gateway-services") {
+				g := r.(*structs.GatewayService)
+				if g.GatewayKind == structs.ServiceKindTerminatingGateway && g.Gateway.Name == s.ServiceName && g.Service.Name == name {
+					link = "still-linked"
+				}
+			}
+			if cur, has := assigned["|"+name]; !has {
+				v("vip-advertised-by-gateway-unassigned:"+link, fmt.Sprintf("gateway instance %s/%s advertises virtual IP %s for service %q which has no assignment (%s)", s.Node, s.ServiceID, ta.Address, name, link))
+			} else if cur != ta.Address {
+				v("vip-advertised-by-gateway-stale:"+link, fmt.Sprintf("gateway instance %s/%s advertises virtual IP %s for service %q which is assigned %s (%s)", s.Node, s.ServiceID, ta.Address, name, cur, link))
+			}
+		}
+	}
 	for _, s := range b.services {
 		ta, ok := s.ServiceTaggedAddresses[structs.TaggedAddressVirtualIP]
 		if !ok {
@@ -559,7 +585,10 @@ func Run(c *ev.Ctx) {
 		cmdlib.RegService(n1p, cmdlib.SvcSpec{ID: "web-2", Name: "web", Port: 80}), cmdlib.CoordinateUpdate("n1", 0.5)}
 	// the wildcard gateway's last instance of "web" is about to go while an ordinary service-defaults entry for it exists
 	seedLast := append(append([]world.Op{}, seedGW...), cmdlib.SvcDefaults("web", "http").Upsert(), cmdlib.DeregService("n2", "web-2", ""))
-	seeds := [][]world.Op{nil, seedProxies, seedGW, seedPeer, seedLast}
+	// a terminating gateway that names "web" explicitly (the link outlives web's instances) next to an ingress gateway
+	// whose name sorts first; one instance of web left
+	seedExplicit := append(append([]world.Op{}, seedGW...), cmdlib.Terminating("tgw", "web").Upsert(), cmdlib.DeregService("n2", "web-2", ""))
+	seeds := [][]world.Op{nil, seedProxies, seedGW, seedPeer, seedLast, seedExplicit}
 
 	depth := 2
 	if !quick {
